@@ -855,7 +855,7 @@ func TestC17(t *testing.T) {
 		Level: "exploration",
 		Rule: "Sequential cases (3/4): a kitchen-sink history is split at a drawn point; the prefix builds state A, a snapshot is taken (Snapshot(path), SnapshotInTx, or StreamToWriter bytes), the suffix runs, the snapshot is restored (RestoreSnapshot or RestoreFromReader). The full dump after restore must equal the dump at snapshot time except the snapshot-id / timeline-reset markers, the stores must show model A, GetSnapshotId must equal the id the snapshot call returned, every restore listener fires once, the first GetTimelineId(default) calls the id function exactly once and the second returns the same id without calling it, and replaying the suffix on the restored database gives the same outcomes as the first time. " +
 			"Concurrent cases (1/4, built with -race): 1-6 reader goroutines read a generation stamp from every entity, unique-index entry, set-index entry and a query inside one View while a writer bumps the generation of everything in one Update and 1-2 restores of an older snapshot happen; every read transaction must show a single generation not older than the snapshot, every update is entirely visible or failed cleanly unless a restore intervened, no panic, no race report. " +
-			"Also generated: a write committing while the snapshot's read transaction is open, a reader delivering its last bytes together with EOF, a second snapshot / restore cycle with or without a timeline request in between, overlapping timeline requests, a slow restore listener. " +
+			"Also generated: a write committing while the snapshot's read transaction is open, a reader delivering its last bytes together with EOF, a second snapshot / restore cycle with or without a timeline request in between, overlapping timeline requests, a slow restore listener. Also: a snapshot streamed to a slow receiver while a writer commits generations; a slow restore listener that is still busy when the second restore happens. " +
 			"Non-trivial: the suffix committed a change to a non-empty state A; or reads completed both before and after a restore. Distinct by hash of the case JSON.",
 		Assumptions: []string{"snapshots are not taken concurrently with a restore (recursive read-locking under a pending writer is a liveness question this check does not decide)",
 			"schedules are sampled by the Go scheduler, not enumerated"},
